@@ -223,6 +223,7 @@ func isCtxDone(v ssa.Value) bool {
 }
 
 func c07(r *core.Run) {
+	defer c07Extra(r)
 	p := r.P
 	r.Explanation = "Decides on the SSA of lib/mr, for every path incl. panic paths: each goroutine that can run a caller-supplied generator/mapper/reducer defers (before the call) a recover that forwards the panic value to the once-only panic channel; WaitGroup Add(1) precedes each mapper `go` and Done is deferred exactly once; every channel that is drained, ranged or handed to a callback has exactly one close site, placed in a defer that runs on all paths or in sync.Once.Do, the collector only after wg.Wait and output only together with done; each worker token taken by `pool <- x` is released exactly once (no-item path or the spawned goroutine's defer), pool capacity is the configured worker count which every writer keeps >= 1; cancel is only reachable through a sync.Once wrapper, records the error (nil -> ErrCancelWithNil) before finishing; the reducer goroutine's defer drains the collector and finishes, the mapper dispatcher's defer drains the source; the final select maps ctx -> DeadlineExceeded, panic -> drain(output) and re-panic with the same value, output -> cancel error first, then value / ErrReduceNoOutput; a second reducer write panics; guarded writes are dropped after done/ctx."
 	r.NotDecided = "exactly-once delivery of items and values, the worker bound as a runtime maximum, termination and goroutine-leak freedom over schedules; behaviour of user callbacks; sync/atomic/runtime semantics."
